@@ -8,7 +8,7 @@ import RulioProofs.QueryExamples
 All statements quantify over arbitrary query programs `Q` (any nesting, any arity), arbitrary `srch`
 and arbitrary lists of incoming bindings. -/
 
-open QueryProofs
+open QSpec QueryProofs
 
 /-! ## 1. the empty query -/
 
@@ -53,6 +53,15 @@ theorem exec_or_bindings (srch : Srch) (qs : List Q) (sc : Bool) (bss : List Bs)
   congr 1
   funext bs
   rw [exec_or_eq, bindEach_single]
+
+/-- `exec_or`: for any incoming bindings, given the result `res bs q` of every disjunct on every singleton: per
+incoming binding (in order) the concatenation of all disjunct results, or — iff `shortCircuit` — only the first
+non-empty one -/
+theorem exec_or (srch : Srch) (qs : List Q) (sc : Bool) (res : Bs → Q → List Bs) (bss : List Bs)
+    (h : ∀ bs ∈ bss, ∀ q ∈ qs, execQ srch q [bs] = .ok (res bs q)) :
+    execQ srch (.or qs sc) bss =
+      .ok (bss.flatMap fun bs => if sc then orFirst (qs.map (res bs)) else qs.flatMap (res bs)) :=
+  exec_or_spec' srch qs sc res bss h
 
 /-- without `shortCircuit`, one incoming binding yields the concatenation of every disjunct's result -/
 theorem exec_or_all (srch : Srch) (qs : List Q) (bs : Bs) (rs : List (List Bs))
@@ -241,6 +250,12 @@ theorem parse_order_none (n : Nat) (q : Obj) (hne : q ≠ []) (h0 : Obj.has q "c
     (h4 : Obj.has q "not" = false) :
     parseQuery (n + 1) (.obj q) = .error "syntax" :=
   QueryProofs.parse_none n q hne h0 h1 h2 h3 h4
+
+/-- the fuel is irrelevant: every fuel ≥ the size of the document gives the same parse, so the fuel the callers
+pass (`4 * sz q + 4`) never shows in a result -/
+theorem parse_fuel_irrelevant (n m : Nat) (j : J) (hn : sz j ≤ n) (hm : sz j ≤ m) :
+    parseQuery n j = parseQuery m j :=
+  QueryProofs.parse_fuel_irrelevant n m j hn hm
 
 /-- none of the four `shortCircuit` spellings present: no short-circuit -/
 theorem short_circuit_absent (q : Obj) (h : ∀ k ∈ scKeys, Obj.has q k = false) : scSpec q = .ok false :=
